@@ -234,6 +234,36 @@ def buildNorms (w : World τ) : List (CExpr τ) → Option (World τ × List Con
   | c :: cs => (buildNorm w c).bind (fun (w, i) => (buildNorms w cs).map (fun (w, is) => (w, i :: is)))
 end
 
+mutual
+/-- the boolean-algebra reading of an expression: atoms by their current values, `&`/`|`/`~` as
+and/or/not (this is the *specification* side of C08's algebra clause) -/
+def evalSpec (w : World τ) : CExpr τ → Bool
+  | .flag f => match lookup w.flagIds f with
+    | some c => w.eval c
+    | none => false
+  | .after t => ge w.time t
+  | .before t => lt w.time t
+  | .moment t => beq w.time t
+  | .eternity => false
+  | .instant => true
+  | .done t => match lookup w.taskNames t with
+    | some tid => (w.task tid).result.isSome && w.eval (w.task tid).done
+    | none => false
+  | .all cs => evalSpecAll w cs
+  | .any cs => evalSpecAny w cs
+  | .inv c => !(evalSpec w c)
+  | .tracked x op v => cmpOp op (w.tracked.getD x default).value v
+  | .resLevel r op v => match lookup w.resNames r with
+    | some rid => vecCmp op (w.res.getD rid default).levels v
+    | none => false
+def evalSpecAll (w : World τ) : List (CExpr τ) → Bool
+  | [] => true
+  | c :: cs => evalSpec w c && evalSpecAll w cs
+def evalSpecAny (w : World τ) : List (CExpr τ) → Bool
+  | [] => false
+  | c :: cs => evalSpec w c || evalSpecAny w cs
+end
+
 /-- `none` = the expression cannot be built (inverting a `Moment`, unknown name) -/
 def buildCond (w : World τ) (c : CExpr τ) : Option (World τ × CondId) :=
   (normExpr c).bind (buildNorm w)
